@@ -806,6 +806,16 @@ func (vc *FuncVC) loopHead(l *loopInfo, b *ssa.BasicBlock, pre *State, preds []*
 		env := vc.invEnv(l, pre, defs, phiOv)
 		fr.mods = vc.evalModifies(l.spec.Modifies, env)
 	}
+	// a function that may modify anything (`modifies any`) and says nothing about a loop lets the loop modify anything
+	if (l.spec == nil || len(l.spec.Modifies) == 0) && vc.con != nil {
+		for _, m := range vc.con.Modifies {
+			for _, x := range m.Exprs {
+				if id, ok := x.(*ast.Ident); ok && id.Name == "any" {
+					fr.mods = append(fr.mods, modLoc{kind: "any"})
+				}
+			}
+		}
+	}
 	// auto: local cells declared outside the loop and stored directly in it
 	for bb := range l.body {
 		for _, ins := range bb.Instrs {
